@@ -20,7 +20,7 @@ namespace Sentinel.Throttle
 /-- what the float part of `DoCheck` decides before touching the shared state -/
 inductive Req where
   | zero                 -- batchCount = 0: pass, no state change
-  | over                 -- threshold ≤ 0 or batchCount > threshold: blocked, no state change
+  | excess                 -- threshold ≤ 0 or batchCount > threshold: blocked, no state change
   | norm (iv : Int)      -- intervalNs
 deriving DecidableEq, Repr
 
@@ -39,7 +39,7 @@ def Res.passAt (now : Int) : Res → Option Int
 /-- `DoCheck` executed without interference; `last` = `lastPassedTime`; returns the new `last`. -/
 def doCheck (maxQ last now : Int) : Req → Int × Res
   | .zero => (last, .pass)
-  | .over => (last, .block)
+  | .excess => (last, .block)
   | .norm iv =>
     if last + iv ≤ now then (now, .pass)                        -- CAS(last → now) succeeds
     else if last + iv - now > maxQ then (last, .block)          -- estimate over the limit
@@ -77,7 +77,7 @@ deriving DecidableEq, Repr
 /-- a worker advanced to its first yield point (or to completion when it meets none) -/
 def Th.init (now : Int) : Req → Th
   | .zero => ⟨now, 0, .done .pass⟩
-  | .over => ⟨now, 0, .done .block⟩
+  | .excess => ⟨now, 0, .done .block⟩
   | .norm iv => ⟨now, iv, .load⟩
 
 def Th.isDone (t : Th) : Bool := match t.pc with | .done _ => true | _ => false
